@@ -393,6 +393,11 @@ def gate_identity(ctx):
     res.check(len(calls) >= 1 and all(len(c.args) == 1 and unparse(c.args[0]) == p for c in calls) and not dom.assignments_to(g, p), 'R-DOM.checked-is-stored', ck.fq,
               "the simple-content gate receives the value unchanged", fail_detail='; '.join(short(c) for c in calls) + ('; parameter re-bound' if dom.assignments_to(g, p) else ''),
               key='R-DOM.checked-is-stored|complex|identity')
+    gate_nodes = dom.nodes_calling(g, lambda c: unparse(c.func) == 'self._SIMPLE_CONTENT')
+    okf = g.edge_filter_assuming({'self._SIMPLE_CONTENT': True})
+    pth = g.path_avoiding(g.entry, g.exit, avoid=gate_nodes, edge_ok=okf)
+    res.check(pth is None and bool(gate_nodes), 'R-DOM.checked-is-stored', ck.fq, "with simple content, no path accepts a value without handing it to the simple-content gate",
+              fail_detail='path: ' + ' -> '.join(n.text() for n in (pth or [])[:6]), key='R-DOM.checked-is-stored|complex|every-path')
     init = sm.func('XSDComplexType', '__init__', T.M_COMPLEX)
     res.check('self.value = value' in unparse(init.node), 'R-DOM.checked-is-stored', init.fq, "constructing the complex type validates the value",
               key='R-DOM.checked-is-stored|complex|init')
